@@ -90,7 +90,8 @@ var (
 
 func extractFromPath(path *Path, data []byte, optFuncs ...DecodeOptionFunc) ([][]byte, error) {
 	if path.path.RootSelectorOnly {
-		return [][]byte{data}, nil
+		// the result belongs to the caller: it must not share memory with the input
+		return [][]byte{append([]byte{}, data...)}, nil
 	}
 	src := make([]byte, len(data)+1) // append nul byte to the end
 	copy(src, data)
